@@ -110,7 +110,7 @@ def run(ctx):
             if mode == 1 and not (base <= q < base + g):
                 continue
             evs = []
-            for e in per[q]:
+            for e in mpitrace.canonical_windows(per[q]):
                 if e[0] == "S":
                     evs.append("S %x %x %s" % (e[1], e[2], mpitrace.hexints(e[3])))
                 elif e[0] == "R":
